@@ -139,7 +139,7 @@ class Gen:
         rng = self.rng
         out = []
         for _ in range(n):
-            k = kind if kind != "mixed" else rng.choice(["ascii", "latin", "bmp", "astral", "nul", "two"])
+            k = kind if kind != "mixed" else rng.choice(["ascii", "latin", "bmp", "astral", "nul", "two", "alias"])
             if k == "ascii":
                 out.append(rng.randint(32, 126))
             elif k == "latin":
@@ -148,6 +148,9 @@ class Gen:
                 out.append(rng.choice([0, 164, 1, 255, 256]))
             elif k == "two":
                 out.append(rng.randint(128, 2047))
+            elif k == "alias":
+                # characters whose low 8 / 16 bits look like a Latin-1 code
+                out.append(rng.choice([0x100, 0x200, 0x1000, 0x10000, 0x20000, 0x100000, 0x10100]) + rng.randint(0, 255))
             elif k == "bmp":
                 c = rng.randint(2048, 65535)
                 out.append(c if not (0xD800 <= c <= 0xDFFF) else 0x20AC)
